@@ -414,6 +414,106 @@ theorem ls2ci_spec (ls : List (List Nat)) (z : Nat)
     rw [List.getElem?_eq_getElem (by simpa [hsz] using hvN)]
     simp only [Array.getElem_toList, this]
 
+/-- a list of natural labels of length `n` as a community vector -/
+def vecOf (ci : List Nat) (h : ci.length = n) : Vector Int n := ⟨(ci.map Int.ofNat).toArray, by simp [h]⟩
+
+theorem vecOf_get (ci : List Nat) (h : ci.length = n) (u : Fin n) (x : Nat) (hx : ci[u.val]? = some x) :
+    (vecOf ci h)[u] = (x : Int) := by
+  have hu : u.val < ci.length := by rw [h]; exact u.isLt
+  rw [List.getElem?_eq_getElem hu] at hx
+  have : (vecOf ci h)[u] = ((ci.map Int.ofNat).toArray)[u.val]'(by simp [h]) := rfl
+  rw [this]
+  simp only [List.getElem_toArray, List.getElem_map]
+  rw [Option.some.inj hx]; rfl
+
+/-- **`ci2ls ∘ ls2ci` gives the blocks back** (up to the order inside a block): for a list `ls` of non-empty, pairwise
+disjoint blocks that cover `0..n-1`, `ls2ci ls z` succeeds and block `i` of `ci2ls` of the result has exactly the members
+of `ls[i]`, for both `zeroindexed` flags -/
+theorem ci2ls_ls2ci (ls : List (List Nat)) (z : Nat) (hn : (ls.map List.length).sum = n)
+    (hlt : ∀ b ∈ ls, ∀ v ∈ b, v < n)
+    (hdisj : ∀ (i j : Nat) (b b' : List Nat), ls[i]? = some b → ls[j]? = some b' → ∀ v, v ∈ b → v ∈ b' → i = j)
+    (hcov : ∀ v, v < n → ∃ b ∈ ls, v ∈ b)
+    (hne : ∀ b ∈ ls, b ≠ []) :
+    ∃ (ci : List Nat) (h : ci.length = n), ls2ci ls z = .ok ci ∧
+      (ci2ls (vecOf ci h)).length = ls.length ∧
+      ∀ (i : Nat) (b : List Nat), ls[i]? = some b →
+        ∃ b', (ci2ls (vecOf ci h))[i]? = some b' ∧ ∀ u : Fin n, u ∈ b' ↔ u.val ∈ b := by
+  obtain ⟨ci, hok, hlen, hspec⟩ := ls2ci_spec ls z (by rw [hn]; exact hlt) hdisj
+  have h : ci.length = n := hlen.trans hn
+  refine ⟨ci, h, hok, ?_⟩
+  set c := vecOf ci h with hc
+  -- A: members of block i carry the label i + z
+  have hA : ∀ (i : Nat) (b : List Nat), ls[i]? = some b → ∀ u : Fin n, u.val ∈ b → c[u] = ((i + z : Nat) : Int) :=
+    fun i b hb u hu => vecOf_get ci h u _ (hspec i b hb u.val hu)
+  -- every node lies in some block
+  have hcov' : ∀ u : Fin n, ∃ (i : Nat) (b : List Nat), ls[i]? = some b ∧ u.val ∈ b := by
+    intro u
+    obtain ⟨b, hb, hu⟩ := hcov u.val u.isLt
+    obtain ⟨i, hi⟩ := List.mem_iff_getElem?.mp hb
+    exact ⟨i, b, hi, hu⟩
+  have hidx : ∀ (i : Nat) (b : List Nat), ls[i]? = some b → i < ls.length := by
+    intro i b hb
+    by_contra hge
+    rw [List.getElem?_eq_none (by omega)] at hb
+    exact absurd hb (by simp)
+  -- B: the labels are z, …, z + len - 1
+  have hB : labelSet c = (range ls.length).image fun i => ((i + z : Nat) : Int) := by
+    ext x
+    simp only [labelSet, mem_image, mem_univ, true_and, mem_range]
+    constructor
+    · rintro ⟨u, rfl⟩
+      obtain ⟨i, b, hb, hu⟩ := hcov' u
+      exact ⟨i, hidx i b hb, (hA i b hb u hu).symm⟩
+    · rintro ⟨i, hi, rfl⟩
+      have hb : ls[i]? = some ls[i] := List.getElem?_eq_getElem hi
+      obtain ⟨v, hv⟩ := List.exists_mem_of_ne_nil _ (hne _ (List.getElem_mem hi))
+      have hvn := hlt _ (List.getElem_mem hi) v hv
+      exact ⟨⟨v, hvn⟩, hA i _ hb ⟨v, hvn⟩ hv⟩
+  have hinj : Function.Injective fun i : Nat => ((i + z : Nat) : Int) := fun a b hab => by
+    simp only at hab; omega
+  -- C: the rank of label i + z is i
+  have hC : ∀ i, i < ls.length → rank c.toList ((i + z : Nat) : Int) = i := by
+    intro i hi
+    rw [rank_eq, hB]
+    have : ((range ls.length).image fun j => ((j + z : Nat) : Int)).filter (· < ((i + z : Nat) : Int))
+        = (range i).image fun j => ((j + z : Nat) : Int) := by
+      ext x
+      simp only [mem_filter, mem_image, mem_range]
+      constructor
+      · rintro ⟨⟨j, hj, rfl⟩, hlt'⟩; exact ⟨j, by omega, rfl⟩
+      · rintro ⟨j, hj, rfl⟩; exact ⟨⟨j, by omega, rfl⟩, by omega⟩
+    rw [this, Finset.card_image_of_injective _ hinj, card_range]
+  have hD : numMods c = ls.length := by
+    rw [numMods_eq, hB, Finset.card_image_of_injective _ hinj, card_range]
+  refine ⟨by rw [ci2ls_length, hD], ?_⟩
+  intro i b hb
+  have hi := hidx i b hb
+  have hi' : i < (ci2ls c).length := by rw [ci2ls_length, hD]; exact hi
+  refine ⟨(ci2ls c)[i], List.getElem?_eq_getElem hi', ?_⟩
+  intro u
+  have hblk := ci2ls_blocks c u i (by rw [hD]; exact hi)
+  have hmem : u ∈ (ci2ls c)[i] ↔ (relabel c)[u] = i + 1 := by
+    rw [← hblk]
+    constructor
+    · intro hu; exact ⟨_, List.getElem?_eq_getElem hi', hu⟩
+    · rintro ⟨b', hb', hu⟩
+      rw [List.getElem?_eq_getElem hi'] at hb'
+      rw [Option.some.inj hb']; exact hu
+  rw [hmem, relabel_get]
+  constructor
+  · intro hr
+    obtain ⟨j, b2, hb2, hu2⟩ := hcov' u
+    have hj := hidx j b2 hb2
+    have hcu := hA j b2 hb2 u hu2
+    rw [hcu, hC j hj] at hr
+    have : j = i := by omega
+    subst this
+    rw [hb] at hb2
+    rw [Option.some.inj hb2]; exact hu2
+  · intro hu
+    rw [hA i b hb u hu, hC i hi]
+
+
 /-! ## partition_distance over ℝ: `VIn`, `MIn` as the code computes them from the table
 
 `Hof c = -Σ_a (n_a/n) log (n_a/n)`, `Hjoint = -Σ_ab (n_ab/n) log (n_ab/n)`,
@@ -654,6 +754,52 @@ theorem pd_zero_one_iff (cx cy : Vector Int n) : (VIn cx cy = 0 ∧ MIn cx cy = 
     · rw [Hof_eq_zero_of_le_one cx hn, Hof_eq_zero_of_le_one cy hn]
       simp
 
+/-! ### `VIn`, `MIn` are functions of the printed table alone
+
+The driver prints `sizes cx`, `sizes cy`, `jointSizes cx cy` and evaluates `pdWith` on them over `Rat` with the double
+logarithms; the check compares both with bct.  `pd_of_table` says that the *same* definition `pdWith`, read over `ℝ` with
+`Real.log`, is `(VIn, MIn)`: table correspondence + this lemma tie `pd_symm … pd_zero_one_iff` to the code's formula. -/
+
+theorem entW_real (N k : Nat) : entW (fun k => Real.log (k : ℝ)) N k = PartEntropy.f N k := by
+  rcases Nat.eq_zero_or_pos N with rfl | hN
+  · simp [entW, PartEntropy.f]
+  · rw [PartEntropy.f_eq hN]; rfl
+
+theorem sum_map_filter_ne_zero {α : Type} [AddCommMonoid α] (φ : Nat → α) (h0 : φ 0 = 0) (l : List Nat) :
+    ((l.filter (· ≠ 0)).map φ).sum = (l.map φ).sum := by
+  induction l with
+  | nil => rfl
+  | cons x l ih =>
+    simp only [ne_eq, decide_not] at ih ⊢
+    by_cases hx : x = 0
+    · subst hx; simp [h0, ih]
+    · simp [hx, ih]
+
+theorem sum_sizes_f (c : Vector Int n) : ((sizes c).map (PartEntropy.f n)).sum = Hof c := by
+  unfold sizes Hof sizeSum modSum sumRange
+  simp only [List.map_map, Function.comp_def]
+
+theorem sum_joint_f (cx cy : Vector Int n) : ((jointSizes cx cy).map (PartEntropy.f n)).sum = Hjoint cx cy := by
+  unfold jointSizes Hjoint
+  rw [sum_map_filter_ne_zero _ (by simp [PartEntropy.f]), tableSum_eq_table]
+
+/-- **pd_of_table** -/
+theorem pd_of_table (cx cy : Vector Int n) :
+    (VIn cx cy, MIn cx cy) =
+      pdWith (fun k => Real.log (k : ℝ)) n (sizes cx) (sizes cy) (jointSizes cx cy) := by
+  have e : entW (fun k => Real.log (k : ℝ)) n = PartEntropy.f n := funext fun k => entW_real n k
+  unfold pdWith VIn MIn
+  simp only [e, sum_sizes_f, sum_joint_f]
+  refine Prod.ext ?_ ?_
+  · simp only
+    split_ifs
+    · congr 1; ring
+    · rfl
+  · simp only
+    split_ifs
+    · congr 1; ring
+    · rfl
+
 end
 
 /-! ## non-vacuity: every theorem above instantiated on concrete inputs with non-trivial values -/
@@ -734,6 +880,23 @@ example : ∃ ci, ls2ci [[2, 0], [1]] 1 = .ok ci ∧ ci.length = 3 ∧ ci[2]? = 
     | 1, (j + 2) => simp at hj
     | (i + 2), _ => simp at hi)
   exact ⟨ci, h1, h2, h3 0 [2, 0] rfl 2 (by simp), h3 1 [1] rfl 1 (by simp)⟩
+
+example : pdWith (fun k => (k : Rat)) 4 (sizes c1) (sizes c2) (jointSizes c1 c2) = (3/8, 4/7) := by decide +kernel
+example : (VIn c1 c2, MIn c1 c2) = pdWith (fun k => Real.log (k : ℝ)) 4 [2, 2] [1, 3] [1, 1, 2] := by
+  rw [pd_of_table]; congr 1 <;> decide +kernel
+
+example : ∃ (ci : List Nat) (h : ci.length = 3), ls2ci [[2, 0], [1]] 0 = .ok ci ∧ (ci2ls (vecOf ci h)).length = 2 := by
+  obtain ⟨ci, h, h1, h2, _⟩ := ci2ls_ls2ci (n := 3) [[2, 0], [1]] 0 rfl (by decide) (by
+    intro i j b b' hi hj v hv hv'
+    match i, j with
+    | 0, 0 => rfl
+    | 1, 1 => rfl
+    | 0, 1 => simp at hi hj; subst hi hj; simp at hv hv'; omega
+    | 1, 0 => simp at hi hj; subst hi hj; simp at hv hv'; omega
+    | 0, (j + 2) => simp at hj
+    | 1, (j + 2) => simp at hj
+    | (i + 2), _ => simp at hi) (by decide) (by decide)
+  exact ⟨ci, h, h1, h2⟩
 
 end Examples
 
